@@ -567,6 +567,13 @@ fn thread_op(k: usize, guards: &mut Vec<G>, w: &[&str]) -> Option<String> {
                 },
             }
         }
+        // a traceparent header from the network: decoding is a public tracing call like any other (only "returns" is judged
+        // here; what it returns is C12's business)
+        ["decodeTp", h] => {
+            let text = str_of_hex(h)?;
+            let _ = SpanContext::decode_w3c_traceparent(&text);
+            "ok".into()
+        }
         ["elapsed", v] => match with_span(v, |s| s.elapsed()) {
             Some(Some(d)) => format!("elapsed 1~{}", d.as_nanos()),
             Some(None) => "elapsed 0".into(),
